@@ -92,4 +92,37 @@ META['C13'] = {
   'level_text': 'Proved for all states/inputs of the model: final-cut clamp |D\'-D| <= max(D/250,1) and D\' >= 1; v2 clamp D-D/250 <= D\' <= D+D/250 and never zero; Oak-era target within x1004/1000 each way (except the ASIC reset height); pre-Oak target unchanged off the 500-block boundary and otherwise scaled by a ratio in [0.4,2.5]; cumulative work strictly increasing under v2; target/difficulty floored-inverse relation per era; ValidateHeader accepts iff the four conditions; SufficientlyHeavierThan asymmetric. ApplyHeader/ValidateHeader/SufficientlyHeavierThan are tied to the model by recomputing every transition of generated chains crossing all eras. Partial: totality and the binary64 step are correspondence only.',
 }
 
+def _gen_obl(root):
+    import json, os
+    try:
+        d = json.load(open(root + '/coq/Gen/schemas.json'))
+        return 3 * sum(1 for t in d if not t.get('opaque'))
+    except Exception:
+        return 0
+
+TRANSLATOR = ('translator /verif/translate (Go, go/parser only): closed statement grammar (e.WriteX / d.ReadX / Write(x[:]) / X.EncodeTo / Encode|DecodeSlice[Cast|Fn] / Encode|DecodePtr[Cast] / pure assignments / for-range), '
+              'anything else makes the method opaque and it must then be on the pinned irregular list; its output is validated on every run by decoding and re-encoding Go-produced bytes with the generated shapes')
+META['C11'] = {
+  'generated_obligations': _gen_obl,
+  'rule': ('for each of the 117 exported wire types (types, consensus, rhp/v2, v3, v4) 60 (thorough 2500) random values by reflection (full-range integers, boundary and maximal currencies, empty/nil collections, all resolution kinds, random policies) plus the zero value: '
+           'Go decode(encode v) must re-encode to identical bytes, encoding must be deterministic, every proper prefix (all for short encodings, ~150 sampled for long) must fail to decode; '
+           'for the 98 types whose shape closure is regular (or recognised: V1Currency, V1SiafundOutput, SpendPolicy) the extracted model decodes the Go bytes with the *generated decoder shape* and re-encodes with the *generated encoder shape* and must reproduce the bytes, and must reject the same prefixes. '
+           'V2TransactionsMultiproof/V2BlockData/V2Block need proofs valid for one state and are covered by C18 instead'),
+  'trusted_base': [KERNEL, EXTRACT, HARNESS, TRANSLATOR,
+                   'Codec/Golden.v: the wire layout of the pinned tree (a golden transcription made from the implementation, regenerated by make_golden.sh only by hand)',
+                   'coverage exceptions table in Codec/Oblig.v (fields documented as not transmitted or covered through a delegating conversion)'],
+  'assumptions': ['20 irregular codecs (policy, V2Transaction bitmap, resolution union, State, ElementAccumulator, multiproof, rpcResponse, RHP3 instructions, Account ...) are outside the generic theorem: three have recognisers (two with proved round trip), the others are covered by the Go-side round-trip oracle only',
+                  'the truncation theorem (every proper prefix fails) is not yet proved generically; it is checked by correspondence and the Go oracle',
+                  'value-level normalisations (nil vs empty, sub-second times, revision payout sentinel) are below the byte-level statement: the theorems are about values of the schema universe'],
+  'level_text': 'Proved once for the generic codec (u8/u64/bool/fixed/bytes/slice/ptr/sequence/recognised fragments): decode(encode v ++ rest) = (v, rest), hence canonical re-encoding and injectivity (every shape component influences the bytes). Re-checked by the kernel on every run against shapes regenerated from /repo: decoder shape = encoder shape for every type, slices well-formed, layout = pinned layout, irregular set = pinned set, every struct field written (documented exceptions). The translator is validated each run by recoding Go-produced bytes with the generated shapes.',
+}
+META['C10'] = {
+  'generated_obligations': lambda root: _gen_obl(root) // 3,
+  'rule': ('decode half: for every wire type 40 (thorough 1500) hostile inputs: random bytes, valid encodings with 1-3 flipped bits, valid encodings with an 8-byte window overwritten by 0xff..ff / 0x7fff..ff (huge length prefixes); DecodeFrom runs under recover with the process memory limit; a panic is a violation; '
+           'for the 98 modelled types the accept/reject verdict is recomputed by the extracted generic decoder over the generated shapes. Validation half: ledger streams (see C10 in DESIGN)'),
+  'trusted_base': [KERNEL, EXTRACT, HARNESS, TRANSLATOR, 'ulimit -v on the harness process: an unchecked allocation shows up as a crash of the run'],
+  'assumptions': ['stack depth and the Go allocator are observed, not modelled', 'UnmarshalJSON/UnmarshalText entry points are exercised under C20'],
+  'level_text': 'Proved: the generic decoder has no panic site (total into option) and a decoded slice/byte string never has more elements than input bytes (length prefix checked against bytes remaining), with every generated shape well-formed (re-checked each run). Go decoders are tied to it by verdict correspondence on hostile inputs under recover and a memory limit. Partial until the ledger model adds the validation half.',
+}
+
 NOT_YET = {}
